@@ -47,6 +47,10 @@ type Session struct {
 	conn     net.Conn
 	brw      *bufio.ReadWriter
 	vals     map[string]interface{}
+
+	// tunnelHost is the authority of the CONNECT request whose tunnel the
+	// proxy decrypts on this connection, if any.
+	tunnelHost string
 }
 
 var (
@@ -154,6 +158,29 @@ func (s *Session) setConn(conn net.Conn, brw *bufio.ReadWriter) {
 
 	s.conn = conn
 	s.brw = brw
+}
+
+// currentConn returns the connection requests of the session are read from:
+// the one it was created with, or its TLS upgrade.
+func (s *Session) currentConn() net.Conn {
+	s.mu.RLock()
+	defer s.mu.RUnlock()
+
+	return s.conn
+}
+
+func (s *Session) setTunnelHost(host string) {
+	s.mu.Lock()
+	defer s.mu.Unlock()
+
+	s.tunnelHost = host
+}
+
+func (s *Session) getTunnelHost() string {
+	s.mu.RLock()
+	defer s.mu.RUnlock()
+
+	return s.tunnelHost
 }
 
 // Get takes key and returns the associated value from the session.
